@@ -374,9 +374,18 @@ class SGen:
     """Statements of the modelled fragment (expression / empty / var statements, blocks, if, while, do-while, for with an
     expression initialiser, return, throw; no break/continue/labels/lexical declarations), over EGen expressions."""
 
-    def __init__(self, rng, ctx, strict):
+    def __init__(self, rng, ctx, strict, branches=False):
         self.r, self.ctx, self.strict = rng, ctx, strict
         self.e = EGen(rng, "g" if ctx == "G" else ctx, strict)
+        self.branches, self.loop = branches, 0   # branches: also `break` / `continue` inside loops (model Stmt2)
+
+    def body(self, d):
+        """a loop body"""
+        self.loop += 1
+        try:
+            return self.stmt(d)
+        finally:
+            self.loop -= 1
 
     def ex(self, d):
         """an expression in parentheses (so that it cannot be taken for a declaration or a block)"""
@@ -395,7 +404,37 @@ class SGen:
 
     def stmt(self, d):
         r = self.r
+        if self.branches and self.loop > 0 and r.random() < (0.22 if d > 0 else 0.35):
+            return ("break;", ["s:brk"]) if r.random() < 0.5 else ("continue;", ["s:cont"])
         k = r.randrange(16) if d > 0 else r.choice([0, 0, 0, 1, 2, 3, 13, 14, 15])
+        if self.branches and d > 0 and r.random() < 0.5:
+            k = r.choice([4, 4, 5, 6, 7, 8, 9, 16, 16, 16])      # more blocks, ifs, loops and try: where branch statements matter
+        if k == 16:
+            def lst():
+                n = r.randrange(4)
+                xs = [self.stmt(d - 1) for _ in range(n)]
+                return "{ " + " ".join(x[0] for x in xs) + " }", n, [t for x in xs for t in x[1]]
+            def clause():
+                """catch clause: without parameter, or `catch (e)` with `e` a stack-allocated lexical binding of the clause"""
+                if r.random() < 0.4:
+                    return lst() + ("", 0)
+                saved = self.e.ids
+                self.e.ids = dict(saved, e="lv")
+                try:
+                    return lst() + (" (e)", 1)
+                finally:
+                    self.e.ids = saved
+            form = r.randrange(3)
+            b = lst()
+            if form == 0:
+                c = clause()
+                return "try %s catch%s %s" % (b[0], c[3], c[0]), ["s:trycatch:%d:%d:%d" % (b[1], c[1], c[4])] + b[2] + c[2]
+            if form == 1:
+                f = lst()
+                return "try %s finally %s" % (b[0], f[0]), ["s:tryfin:%d:%d" % (b[1], f[1])] + b[2] + f[2]
+            c, f = clause(), lst()
+            return ("try %s catch%s %s finally %s" % (b[0], c[3], c[0], f[0]),
+                    ["s:trycf:%d:%d:%d:%d" % (b[1], c[1], f[1], c[4])] + b[2] + c[2] + f[2])
         if k in (0, 11, 12):
             js, t = self.ex(2)
             return js + ";", ["s:expr"] + t
@@ -417,14 +456,14 @@ class SGen:
             return "if %s %s" % (c[0], a[0]), ["s:if"] + c[1] + a[1]
         if k == 6:
             c, a, b = self.ex(2), self.stmt(d - 1), self.stmt(d - 1)
-            if a[1][0].split(":")[1] in ("if", "ifelse", "while", "for"):   # no dangling else
+            if a[1][0].split(":")[1] in ("if", "ifelse", "while", "for", "trycatch", "tryfin", "trycf"):   # no dangling else
                 a = ("{ %s }" % a[0], ["s:block:1"] + a[1])
             return "if %s %s else %s" % (c[0], a[0], b[0]), ["s:ifelse"] + c[1] + a[1] + b[1]
         if k == 7:
-            c, a = self.ex(2), self.stmt(d - 1)
+            c, a = self.ex(2), self.body(d - 1)
             return "while %s %s" % (c[0], a[0]), ["s:while"] + c[1] + a[1]
         if k == 8:
-            a, c = self.stmt(d - 1), self.ex(2)
+            a, c = self.body(d - 1), self.ex(2)
             return "do %s while %s;" % (a[0], c[0]), ["s:do"] + a[1] + c[1]
         if k in (9, 10):
             m = [r.random() < 0.6, r.random() < 0.7, r.random() < 0.6]
@@ -438,7 +477,7 @@ class SGen:
                 n, c = self.var_target()
                 js, t = self.ex(2)
                 parts[0], head, hcls = ("var %s = %s" % (n, js), t), "V", ":" + c
-            a = self.stmt(d - 1)
+            a = self.body(d - 1)
             return ("for (%s; %s; %s) %s" % (parts[0][0], parts[1][0], parts[2][0], a[0]),
                     ["s:for:" + head + "".join("1" if x else "0" for x in m[1:]) + hcls] + parts[0][1] + parts[1][1] + parts[2][1] + a[1])
         if k == 13 and self.ctx != "G":
@@ -463,13 +502,13 @@ def wrap_stmt(ctx, strict, js):
     return "(function nf(a) { var v; let l = 1; const k = 2; %s })" % body
 
 
-def corr1_stmt_cases(rng, n):
+def corr1_stmt_cases(rng, n, branches=False):
     cases = []
     for i in range(n):
         ctx = rng.choice(["f", "G", "G", "n"])
         strict = (ctx != "n") and rng.random() < 0.35
-        g = SGen(rng, ctx, strict)
-        js, toks = g.stmt(rng.choice([0, 1, 1, 2, 2, 3]))
+        g = SGen(rng, ctx, strict, branches)
+        js, toks = g.stmt(rng.choice([1, 2, 2, 3, 3, 4] if branches else [0, 1, 1, 2, 2, 3]))
         cases.append({"ctx": ctx, "strict": strict, "js": js, "toks": toks, "nr": 1 if ctx == "G" else 0,
                       "src": wrap_stmt(ctx, strict, js)})
     return cases
@@ -589,7 +628,7 @@ def main(ctx):
     # theorems + model driver first; the Tie theorems separately, so that a tie broken by a change in /repo does not take
     # the model driver (needed by the correspondences and by the search for a failing input) down with it
     lean_ok, errs = ctx.lake_build(["GojaModel.C01.Props", "model_c01"])
-    names = ctx.audit("GojaModel.C01.Props", expect_min=29) if lean_ok else []
+    names = ctx.audit("GojaModel.C01.Props", expect_min=31) if lean_ok else []
     tie_ok, terrs = ctx.lake_build(["GojaModel.C01.Tie"])
     if tie_ok:
         for t in ["modelOps_agree", "tie_new", "tie_rdupN", "tie_dupLast", "tie_concatStrings", "new_instance", "jumps_agree",
@@ -598,7 +637,8 @@ def main(ctx):
                       "compileExpressionStatement", "compileEmptyStatement", "compileIfStatement", "compileIfBody",
                       "compileLabeledWhileStatement", "compileLabeledDoWhileStatement", "compileLabeledForStatement",
                       "compileReturnStatement", "compileThrowStatement", "emitVarAssign", "compileStatements",
-                      "compileStatementsNeedResult", "scanStatements")]:
+                      "compileStatementsNeedResult", "scanStatements", "compileTryStatement", "emitBlockExitCode",
+                      "compileBreak", "compileContinue", "leaveBlock")]:
             ctx.obligation("tie:" + t, "tie", True, "checked by lake build GojaModel.C01.Tie")
     else:
         ctx.obligation("tie:GojaModel.C01.Tie", "tie", False,
@@ -798,6 +838,37 @@ def main(ctx):
                        else "height function and proven verifier accept every emitted statement")
     else:
         ctx.obligation("corr:emit-statements-bytecode-exact", "correspondence", False, "model driver unavailable (Lean build failed)")
+
+    # ---------------------------------------------------------------- corr1 for statements with break / continue (model Stmt2)
+    n1b = 800 if quick else 8000
+    bcases = corr1_stmt_cases(ctx.rng, n1b, branches=True)
+    bimpl = [H.ask("compile %s %s" % ("G" if c["ctx"] == "G" else "f", HEX(c["src"]))) for c in bcases]
+    if have_model:
+        agree1b, bmism, bill, bcompiled, bwith = True, [], [], 0, 0
+        for c, im in zip(bcases, bimpl):
+            if im.startswith("ERR"):
+                continue
+            bcompiled += 1
+            mo = M.ask("emits2 %d %d %s" % (1 if c["strict"] else 0, c["nr"], " ".join(c["toks"])))
+            code, _, info = mo.partition(" | ")
+            ctx.count()
+            if "s:brk" in c["toks"] or "s:cont" in c["toks"] or any(t.startswith("s:try") for t in c["toks"]):
+                bwith += 1
+            ctx.nontriv("c1b:" + code + "|" + c["ctx"])
+            if code.strip() != im.strip():
+                agree1b = False
+                if len(bmism) < 5:
+                    bmism.append({"src": c["src"], "toks": " ".join(c["toks"]), "model": code, "impl": im})
+            elif "verify=false" in info or "unresolved" in info or "len=false" in info or mo.startswith("error"):
+                bill.append(c)
+        ctx.sample({"corr1-branch": next((c["src"] for c in bcases if "s:brk" in c["toks"]), bcases[0]["src"])[:200]})
+        ctx.stats["corr1_branch"] = {"cases": n1b, "compiled": bcompiled, "with_break_or_continue": bwith, "rejected_by_model_checks": len(bill)}
+        ctx.obligation("corr:emit-branch-statements-bytecode-exact", "correspondence",
+                       agree1b and bcompiled > n1b // 2 and bwith > n1b // 10 and not bill,
+                       json.dumps(bmism)[:1800] if bmism else (json.dumps([{"src": c["src"]} for c in bill[:3]])[:900] if bill else
+                       "compiled=%d, %d with break/continue; the proven verifier accepts every emitted body" % (bcompiled, bwith)))
+    else:
+        ctx.obligation("corr:emit-branch-statements-bytecode-exact", "correspondence", False, "model driver unavailable (Lean build failed)")
 
     # ---------------------------------------------------------------- classifier correspondence (exhaustive over the payload kinds)
     kinds = ["Object", "Value", "Exception", "typeError", "referenceError", "rangeError", "syntaxError", "InterruptedError",
